@@ -187,5 +187,12 @@ theorem ignore_renames_all_free (base : FS) (hw : WF base) (hl : LinkFree base) 
   rw [h1]
   exact ⟨by decide, h2⟩
 
+/-- concrete answers (a test of the extracted table, labelled as such): prefixes in any letter case, the
+    empty line, garbage -/
+example : promptParse "OvEr".toList = some "override".toList ∧ promptParse "c".toList = some "custom".toList ∧
+    promptParse "custom pa".toList = some "custom".toList ∧ promptParse [] = some "ignore".toList ∧
+    promptParse "S".toList = some "stop".toList ∧ promptParse "stopp".toList = none ∧ promptParse "x".toList = none := by
+  decide
+
 end C03
 end Tempren
